@@ -142,6 +142,10 @@ func runCheck(r *propRun) int {
 	for _, f := range files {
 		sf, err := ParseSpecFile(f, "")
 		if err != nil {
+			if data, _ := os.ReadFile(f); !strings.Contains(string(data), r.prop) {
+				fmt.Println("warning: ignoring contract file of other properties with a syntax error:", err)
+				continue
+			}
 			fmt.Println("contract file error:", err)
 			return failHard(r, fmt.Sprintf("contract file error: %v", err))
 		}
@@ -266,7 +270,21 @@ func runCheck(r *propRun) int {
 			}
 			q := SMTQuery(asserts, nil, false)
 			name := r.prop + "/" + sk + "/" + o.Name
-			verdicts = append(verdicts, &Verdict{Name: name, Oblig: o, FuncKey: c.FullKey})
+			v := &Verdict{Name: name, Oblig: o, FuncKey: c.FullKey}
+			if o.Kind == "frame" || o.Kind == "nopanic" {
+				// first attempt without quantified assumptions (a weaker, hence sound, hypothesis set)
+				var qf []*Term
+				for _, a := range asserts {
+					if !hasQuant(a, map[int]bool{}) {
+						qf = append(qf, a)
+					}
+				}
+				if len(qf) < len(asserts) {
+					v.AltText = q
+					q = SMTQuery(qf, nil, false)
+				}
+			}
+			verdicts = append(verdicts, v)
 			texts = append(texts, q)
 		}
 	}
@@ -639,4 +657,20 @@ func runSweep(args []string) int {
 		fmt.Printf("  %4d  %s\n", x.v, x.k)
 	}
 	return 0
+}
+
+func hasQuant(t *Term, seen map[int]bool) bool {
+	if seen[t.id] {
+		return false
+	}
+	seen[t.id] = true
+	if t.op == "forall" || t.op == "exists" {
+		return true
+	}
+	for _, a := range t.args {
+		if hasQuant(a, seen) {
+			return true
+		}
+	}
+	return false
 }
